@@ -10,7 +10,7 @@ TRUSTED = TRUSTED_CORE + [
     "z3's and cvc5's string theory (sequences of code points; concatenation, length, indexing, slicing, prefix, substring, equality are exact)",
     "library laws of contracts/codec_model.py, ASSUMED (C code; exercised only by the bounded stand-in): " + "; ".join(TEXT_LAWS),
     "the csv layer (csv.writer/csv.reader with the storage's own dialect, newline='' and encoding return the same cells that were written) is ASSUMED here and exercised by the bounded stand-in over ',', '\"', CR, LF, NUL, non-BMP text and several dialects; "
-    "CSVStorage._serialize_point / _deserialize_storage_item / _deserialize_measurement / _deserialize_timestamp (the storage-level entry points of the codec) are proved against the same format; CSVStorage.__iter__ (a generator around csv.reader) is not under contract",
+    "CSVStorage._serialize_point / _deserialize_storage_item / _deserialize_measurement / _deserialize_timestamp (the storage-level entry points of the codec) are proved against the same format; CSVStorage.__iter__ is proved (C04 cone) to hand the rows of the file to csv.reader from the start; that csv.reader returns the written cells is the assumed csv law",
     "generator expressions in the encoder are evaluated where they are written (A-gen): nothing between their creation and their consumption in the final tuple display changes the point",
     "dict iteration order is an arbitrary duplicate-free enumeration of the key set, the same one for a key and its value",
 ]
